@@ -29,7 +29,7 @@ from srcgen import Tok, matching   # noqa: E402
 from rustlite import Untranslatable, U8_METHODS   # noqa: E402
 
 LEAN_TY = {"vec": "Bytes", "string": "Bytes", "u8": "UInt8", "bool": "Bool", "usize": "Nat", "vecstr": "List Bytes",
-           "time": "Int", "dur": "Int", "unit": "Unit", "msgvec": "Nat"}
+           "time": "Int", "dur": "Int", "unit": "Unit", "msgvec": "Nat", "map": "List (Bytes × List Bytes)"}
 
 KINDS = ["ExpiredToken", "IO", "InternalServiceError", "InvalidBodyEncoding", "InvalidClientTokenId", "InvalidContentType",
          "InvalidRequestMethod", "IncompleteSignature", "InvalidURIPath", "MalformedQueryString", "MissingAuthenticationToken",
@@ -52,6 +52,12 @@ def parse_type(toks, enums):
         return "result:string"
     if s == "Result<(),SignatureError>":
         return "result:unit"
+    if s in ("HashMap<String,Vec<String>>", "&HashMap<String,Vec<String>>"):
+        return "map"
+    if s == "Result<HashMap<String,Vec<String>>,SignatureError>":
+        return "result:map"
+    if s.startswith("[u8;") and s.endswith("]"):
+        return "vec"
     if s == "DateTime<Utc>":
         return "time"
     if s == "Duration":
@@ -197,6 +203,9 @@ class OFn:
             self.eat("{"); a, ta = self.expr(0); self.eat("}")
             self.eat("else")
             self.eat("{"); b, tb = self.expr(0); self.eat("}")
+            if "←" in a or "←" in b:
+                # each branch gets its own `do`, so that an index/unwrap inside a branch is only evaluated when the branch is taken
+                return (f"(if {c} then (do return {a}) else (do return {b}))", "m:" + str(ta))
             return (f"(if {c} then {a} else {b})", ta)
         elif t.k == "id" and t.v == "SignatureError" and self.at("::", 1):
             r = self.errkind()
@@ -212,7 +221,11 @@ class OFn:
                     self.eat()
                 self.eat(">"); self.eat("::")
             m = self.eat(k="id").v
-            a = self.args()
+            if m == "with_capacity":
+                self.skip_balanced()          # a capacity hint has no observable effect
+                a = [("_", "usize")]
+            else:
+                a = self.args()
             if m == "new" and not a and self.ctx.get("_msgvec_next"):
                 self.ctx["_msgvec_next"] = False
                 r = ("(0 : Nat)", "msgvec")
@@ -222,12 +235,28 @@ class OFn:
                 r = ("([] : Bytes)", "vec")
             else:
                 raise Untranslatable("Vec::" + m)
+        elif t.k == "id" and t.v == "HashMap" and self.at("::", 1):
+            self.eat(); self.eat("::")
+            if self.at("<"):
+                d = 0
+                while True:
+                    tk = self.eat()
+                    if tk.v == "<": d += 1
+                    if tk.v == ">": d -= 1
+                    if tk.v == ">>": d -= 2
+                    if d <= 0: break
+                self.eat("::")
+            self.eat("new"); self.eat("("); self.eat(")")
+            r = ("([] : List (Bytes × List Bytes))", "map")
         elif t.k == "id" and t.v == "String" and self.at("::", 1):
             self.eat(); self.eat("::"); m = self.eat(k="id").v; a = self.args()
             if m in ("new", "with_capacity"):
                 r = ("([] : Bytes)", "string")
             else:
                 raise Untranslatable("String::" + m)
+        elif t.k == "id" and t.v == "hex" and self.at("::", 1) and self.peek(2).v == "encode":
+            self.eat(); self.eat("::"); self.eat("encode"); a = self.args()
+            r = (f"(Rust.hexEncode {a[0][0]})", "string")
         elif t.k == "id" and t.v == "hex" and self.at("::", 1):
             self.eat(); self.eat("::"); self.eat("decode"); a = self.args()
             r = (f"(Rust.hexDecode {a[0][0]})", "opt:vec")
@@ -305,6 +334,9 @@ class OFn:
                         self.eat("."); self.eat("map"); self.eat("(")
                         self.eat("|"); v = self.eat(k="id").v; self.eat("|")
                         self.eat(v); self.eat("."); self.eat("to_string"); self.eat("("); self.eat(")"); self.eat(")")
+                    if not (self.at(".") and self.at("collect", 1)):
+                        r = (f"(Rust.split {a[0][0]} {e})", "vecstr")     # the iterator itself, consumed by a `for`
+                        continue
                     self.eat("."); self.eat("collect")
                     if self.at("::"):
                         self.eat(); self.eat("<")
@@ -326,11 +358,43 @@ class OFn:
                     a = self.args(); r = (f"(Option.getD {e} {a[0][0]})", ty[4:])
                 elif m == "format" and ty == "time":
                     a = self.args()
-                    if a[0][0] != "([0x25, 0x59, 0x25, 0x6D, 0x25, 0x64] : Bytes)":
-                        raise Untranslatable("format string other than %Y%m%d in value position")
-                    r = (f"(Rust.Chrono.formatYmd {e})", "string")
+                    if a[0][0] == "([0x25, 0x59, 0x25, 0x6D, 0x25, 0x64] : Bytes)":
+                        r = (f"(Rust.Chrono.formatYmd {e})", "string")
+                    elif a[0][0] == "([0x25, 0x59, 0x25, 0x6D, 0x25, 0x64, 0x54, 0x25, 0x48, 0x25, 0x4D, 0x25, 0x53, 0x5A] : Bytes)":
+                        r = (f"(Rust.Chrono.formatCompact {e})", "string")
+                    else:
+                        raise Untranslatable("format string other than %Y%m%d / %Y%m%dT%H%M%SZ in value position")
                 elif m == "is_empty" and ty == "msgvec":
                     self.eat("("); self.eat(")"); r = (f"({e} == 0)", "bool")
+                elif m == "splitn" and ty == "string":
+                    a = self.args()
+                    if a[0][0] != "2" or a[1][1] != "u8":
+                        raise Untranslatable("splitn other than (2, char)")
+                    self.eat("."); self.eat("collect")
+                    if self.at("::"):
+                        self.eat(); self.eat("<")
+                        d = 1
+                        while d:
+                            tk = self.eat()
+                            if tk.v == "<": d += 1
+                            if tk.v == ">": d -= 1
+                            if tk.v == ">>": d -= 2
+                    self.eat("("); self.eat(")")
+                    r = (f"(Rust.splitn2 {a[1][0]} {e})", "vecstr")
+                elif m == "split_once" and ty == "string":
+                    a = self.args()
+                    if a[0][1] != "u8":
+                        raise Untranslatable("split_once(non-char)")
+                    r = (f"(Rust.splitOnce {a[0][0]} {e})", "opt:pair")
+                    if self.at(".") and self.at("map", 1):
+                        self.eat("."); self.eat("map"); self.eat("("); self.eat("|"); v = self.eat(k="id").v; self.eat("|")
+                        self.eat(v); self.eat("."); idx = self.eat(k="num").v; self.eat(")")
+                        if idx not in (0, 1):
+                            raise Untranslatable("tuple field")
+                        r = (f"(Option.map (fun x => x.{idx + 1}) {r[0]})", "opt:string")
+                elif m == "expect" and isinstance(ty, str) and ty.startswith("opt:"):
+                    self.skip_balanced()
+                    r = (f"(← Rust.unwrapOpt {e} {self.sitestr('expect')})", ty[4:])
                 elif m == "unwrap" and isinstance(ty, str) and ty.startswith("opt:"):
                     self.eat("("); self.eat(")")
                     r = (f"(← Rust.unwrapOpt {e} {self.sitestr('unwrap')})", ty[4:])
@@ -426,15 +490,37 @@ class OFn:
             if ty == "msg":
                 self.types[name] = "msg"
                 return []
+            monadic_rhs = isinstance(ty, str) and ty.startswith("m:")
+            if monadic_rhs:
+                ty = ty[2:]
             ty = decl or ty
             if ty == "num":
                 ty = "usize"
             if not isinstance(ty, str) or (ty not in LEAN_TY and not ty.startswith("enum:")):
                 raise Untranslatable(f"type of let {name}: {ty}")
             self.types[name] = ty
-            return [f"{ind}let {'mut ' if mut else ''}{name} : {lean_ty(ty)} := {e}"]
+            return [f"{ind}let {'mut ' if mut else ''}{name} : {lean_ty(ty)} {'←' if monadic_rhs else ':='} {e}"]
+        if t.k == "id" and t.v == "if" and self.at("let", 1):
+            return self.if_let_map_push(ind)
         if t.k == "id" and t.v == "if":
             return self.if_stmt(ind)
+        if t.k == "id" and t.v == "for":
+            self.eat()
+            x = self.eat(k="id").v
+            self.eat("in")
+            e, ty = self.expr(0, no_struct=True)
+            if ty != "vecstr":
+                raise Untranslatable("for over " + str(ty))
+            self.types[x] = "string"
+            self.in_for = getattr(self, "in_for", 0) + 1
+            body = self.block(ind + "  ")
+            self.in_for -= 1
+            return [f"{ind}for {x} in {e} do"] + body
+        if t.k == "id" and t.v == "continue":
+            self.eat(); self.eat(";")
+            if not getattr(self, "in_for", 0) or self.loop:
+                raise Untranslatable("continue outside a plain for loop")
+            return [f"{ind}continue"]
         if t.k == "id" and t.v == "while":
             return self.while_stmt(ind)
         if t.k == "id" and t.v == "return":
@@ -486,6 +572,30 @@ class OFn:
                     f = "Rust.removeS" if ty == "vecstr" else "Rust.remove"
                     return [f"{ind}{name} := (← {f} {name} ({a[0][0]}) {self.sitestr('remove')})"]
         raise Untranslatable(f"{self.name}: statement starting with {t!r} at {self.pos}")
+
+    def if_let_map_push(self, ind):
+        """`if let Some(v) = m.get_mut(&k) { v.push(x); } else { m.insert(k, vec![x]); }`  ->  m := Rust.mapPush m k x"""
+        want = None
+        def ids(n):
+            return [self.eat().v for _ in range(n)]
+        self.eat("if"); self.eat("let"); self.eat("Some"); self.eat("(")
+        v = self.eat(k="id").v
+        self.eat(")"); self.eat("=")
+        m = self.eat(k="id").v
+        if self.types.get(m) != "map":
+            raise Untranslatable("if let on " + m)
+        self.eat("."); self.eat("get_mut"); self.eat("("); self.eat("&")
+        k = self.eat(k="id").v
+        self.eat(")"); self.eat("{")
+        self.eat(v); self.eat("."); self.eat("push"); self.eat("(")
+        x = self.eat(k="id").v
+        self.eat(")"); self.eat(";"); self.eat("}")
+        self.eat("else"); self.eat("{")
+        self.eat(m); self.eat("."); self.eat("insert"); self.eat("("); self.eat(k); self.eat(",")
+        self.eat("vec"); self.eat("!"); self.eat("["); self.eat(x); self.eat("]"); self.eat(")"); self.eat(";"); self.eat("}")
+        if self.types.get(k) != "string" or self.types.get(x) != "string":
+            raise Untranslatable("map idiom types")
+        return [f"{ind}{m} := Rust.mapPush {m} {k} {x}"]
 
     def if_stmt(self, ind):
         self.eat("if")
@@ -577,11 +687,10 @@ def translate_result_fn(name, params, ret, body, ctx):
         ptys.append(ty)
         sig.append(f"({p[0].v} : {lean_ty(ty)})")
     rty = parse_type(ret, ctx["enums"])
-    if not rty.startswith("result:"):
-        raise Untranslatable("return type")
-    okty = rty[7:]
+    plain = not rty.startswith("result:")
+    okty = rty if plain else rty[7:]
     lines = []
-    STMT_START = ("let", "if", "while", "return", "assert", "assert_eq", "trace", "debug", "info", "warn", "error")
+    STMT_START = ("let", "if", "while", "for", "return", "assert", "assert_eq", "trace", "debug", "info", "warn", "error")
     while True:
         t = f.peek()
         if t.k == "eof":
@@ -594,11 +703,15 @@ def translate_result_fn(name, params, ret, body, ctx):
         if not is_stmt:
             break
         lines += f.stmt("  ")
-    # tail: Ok(e) | match n { 1 => Ok(a), _ => Ok(b) } | call returning the same Result
-    lines += tail(f, "  ")
+    # tail: Ok(e) | match n { 1 => Ok(a), _ => Ok(b) } | call returning the same Result | (plain return type) an expression
+    if plain:
+        e, _ = f.expr(0)
+        lines.append(f"  return {e}")
+    else:
+        lines += tail(f, "  ")
     if f.peek().k != "eof":
         raise Untranslatable(f"{name}: trailing tokens after the tail expression: {f.peek()!r}")
-    text = f"def {name} (fuel : Nat) " + " ".join(sig) + f" : Outcome {lean_ty(okty)} := do\n" + "\n".join(lines)
+    text = f"def {name} (fuel : Nat) " + " ".join(sig) + f" : Outcome {('(' + lean_ty(okty) + ')') if ' ' in lean_ty(okty) else lean_ty(okty)} := do\n" + "\n".join(lines)
     return text, (ptys, okty)
 
 
